@@ -9,40 +9,66 @@ MANIFEST = {
             "tile it, offsets and More bits are right, a size reduction keeps the byte offset and the SZX on the wire; the received-ranges "
             "structure represents exactly the accepted block numbers (sorted, disjoint, non-adjacent, capacity, exact membership / all-in, refused "
             "insert is a no-op) for every insertion sequence; reassembly of all blocks in any order with any duplicates yields the body; every block "
-            "message coap_add_data_large_internal plans fits the maximum size (first and all follow-up blocks); and for the server's "
-            "single-body Block1 receive automaton (coap_handle_request_put_block: unit conversion after early size reduction, no_more_seen gate, "
-            "with or without Size1): never_wrong_body_partial (any order/duplicates/losses of genuine blocks: whatever is delivered is exactly "
-            "the sender's body) and at_most_once_per_transfer_partial (a delivery releases the receiver state).  TRACE-CHECKED ONLY (real client "
-            "+ real server contexts, virtual clock, drop/duplicate schedules, oracle over the trace; no Lean model): the sender side (lg_xmit, "
-            "retransmission, token substitution/restoration), the client's Block2 receive path, per-block mode, CON/NON, two concurrent "
-            "transfers, MTU bound on every datagram, release callback count, lossless => one delivery + one success response, exhausted "
-            "Confirmable => NACK or error response.  Not covered: Q-Block (RFC 9177), BERT, Block+Observe.",
+            "message coap_add_data_large_internal plans fits the maximum size (first and all follow-up blocks).  RECEIVERS, for every sequence of "
+            "genuine blocks in any order with duplicates and losses: the server's single-body Block1 automaton (coap_handle_request_put_block: "
+            "never_wrong_body_partial, at_most_once_per_transfer_partial) and the CLIENT's Block2 automaton (coap_handle_response_get_block, "
+            "single-body and per-block mode, ETag restart, give-up -> 4.08: never_wrong_body_block2_partial - a delivered body is exactly the "
+            "server's, every delivered block is the exact slice at its offset; at_most_once_block2_partial - delivery releases the lg_crcv, a "
+            "delivered block was not recorded before and is recorded afterwards, completion means every block was recorded: the offsets tile the "
+            "body, each once).  SENDERS (lg_xmit), for every state and every request / response: server_block2_genuine (every Block2 response is "
+            "the slice for the requested NUM/SZX with the right More bit and fits the PDU, a changed size is 4.00), first_block_genuine (first "
+            "Block1 message = slice 0 at the lg_xmit size after both size reductions), client_block1_slices + client_block1_genuine_partial "
+            "(every follow-up Block1 message is the slice for its NUM/SZX, along any response sequence incl. early size renegotiation; More bit "
+            "and position right unless a server asks for a LARGER size), so the slice hypothesis of the receivers is discharged for libcoap "
+            "senders.  RELEASE CALLBACK: adl_release_once (every exit path of coap_add_data_large_internal calls it once or hands it to exactly "
+            "one linked lg_xmit) + release_exactly_once (any create/delete/session-free sequence: never twice, exactly once at session free).  "
+            "request_tag_tells_transfers_apart (lg_srcv lookup keyed by Request-Tag presence AND value, EMPTY tag included).  TRACE-CHECKED ONLY "
+            "(real client + real server contexts, virtual clock, drop/duplicate schedules, oracle over the trace; no Lean model): the composed "
+            "system under schedules (retransmission, token substitution/restoration, CON/NON, lossless => one delivery + one success response, "
+            "exhausted Confirmable => NACK or error response), MTU bound on every datagram.  Not covered: Q-Block (RFC 9177), BERT, Block+Observe.",
     "note": "Trusted: Lean kernel (+ propext, Classical.choice, Quot.sound), the T1 extractor, harness/block.c + block_sim.h + sim_core.h, generators, "
-            "the Python trace oracle, the hand transcription M (checked against the compiled code only on the cases run).  SPEC DECISIONS D6 "
-            "(duplicated request datagram = new request), D13, D14, D15 (refusing for lack of room is an explicit failure), D16 (abandoned = "
-            "retransmissions exhausted).  One open finding is reported as KNOWN-FINDING (c09-late-message-raw-token).",
+            "the Python trace oracle, the hand transcriptions M (Model/Block.lean, BlockCrcv.lean, BlockXmit.lean, BlockRtag.lean; checked against the "
+            "compiled code only on the cases run).  SPEC DECISIONS D6 (duplicated request datagram = new request), D13, D14, D15 (refusing for lack "
+            "of room is an explicit failure), D16 (abandoned = retransmissions exhausted).  One open finding is reported as KNOWN-FINDING "
+            "(c09-late-message-raw-token).  Robustness gaps against a NON-libcoap peer (outside the property's quantifier; Lean witnesses + corpus "
+            "lines, not fixed): a server changing SZX mid-transfer or mixing Size2 values makes the client deliver never-written bytes; a server "
+            "asking for a larger Block1 size makes the client skip bytes and leak a PDU.",
     "design_ref": "DESIGN.md §4 C09, design/C09.md",
 }
 LEAN_MODULES = ["CoapVerif.Props.C09"]
 NAMESPACE = "Coap.C09"
 REQUIRED_THEOREMS = ["block_opt_roundtrip", "blocks_tile_body", "rblock_represents", "reassembly_exact", "block_fits_mtu",
-                     "never_wrong_body_partial", "at_most_once_per_transfer_partial"]
+                     "never_wrong_body_partial", "at_most_once_per_transfer_partial",
+                     "never_wrong_body_block2_partial", "at_most_once_block2_partial", "server_block2_genuine", "first_block_genuine",
+                     "client_block1_slices", "client_block1_genuine_partial", "adl_release_once", "release_exactly_once",
+                     "request_tag_tells_transfers_apart"]
 RULE = ("Layer A: block option values (all single bytes, random 0-3 byte values, boundary NUMs), setup_block_b / coap_write_block_b_opt / "
         "coap_add_data_large_request with the available room around every power of two, slices of bodies whose length is k*2^(szx+4)+{-1,0,1} "
         "for szx 0..6 and random lengths to 64 KiB, every 3-insertion sequence over 5 block numbers plus random longer ones for the received "
         "ranges, coap_block_build_body store sequences, Block1 receive sequences through the real coap_handle_request_put_block with and "
-        "without Size1 in any order with duplicates; Layer B: whole transfers (PUT/Block1, GET/Block2, hand-built Block1 without Size1) "
+        "without Size1 in any order with duplicates, two interleaved transfers told apart by Request-Tag (absent / EMPTY / 1..8 bytes), Block2 "
+        "receive sequences through the real coap_handle_response_get_block (both modes, ETag / Content-Format / Size2 / SZX / More-bit noise), "
+        "sender sequences through the real coap_handle_request_send_block and coap_handle_response_send_block (requests in any order / beyond "
+        "the end / changed size, 2.31 in order / duplicated / renegotiating to a smaller or larger size, error codes); Layer B: whole transfers "
+        "(PUT/Block1 with libcoap's or the application's Request-Tag incl. EMPTY, GET/Block2, hand-built Block1 without Size1) "
         "between a real client and server context under drop/duplicate schedules over the first 4-13 datagrams, MTU 64..1500, SZX asked "
-        "by either side, CON/NON, single-body/per-block, two concurrent transfers; non-trivial = the real code did not refuse the input")
+        "by either side, CON/NON, single-body/per-block, two concurrent transfers (also to one resource, told apart by Request-Tag only); "
+        "non-trivial = the real code did not refuse the input")
 TRUSTED_BASE = ["Lean 4.33 kernel; axioms allowed: propext, Classical.choice, Quot.sound (audited per theorem each run)",
                 "T1 extractor extract/blockconst.c and its renderer", "harness/block.c, harness/block_sim.h, harness/sim_core.h, generators, "
                 "the Python trace oracle (judge_xfer) and string comparison",
-                "M (CoapVerif/Model/Block.lean) is a hand transcription of the Layer A functions; checked against the compiled code only on the cases run"]
+                "M (CoapVerif/Model/Block.lean, BlockCrcv.lean, BlockXmit.lean, BlockRtag.lean) is a hand transcription; checked against the compiled "
+                "code only on the cases run (ops srcv srcv2 srcv3 crcv xmit1 xmit2 and the Layer A ops)"]
 ASSUMPTIONS = ["block numbers < 2^31 at every call of the range functions (coap_get_block_b rejects NUM > 0xFFFFF)",
-               "Layer B: only the server's single-body Block1 receive automaton is under theorems; everything else of the protocol is "
-               "checked as I-vs-S trace conformance only (no M)",
+               "Layer B: receiver and sender automata are proved separately; their composition over the lossy network (retransmission, token "
+               "substitution, timeouts) is checked as I-vs-S trace conformance only",
                "never_wrong_body_partial: every datagram carries the sender's slice for its NUM/SZX, SZX not below the size the receiver tracks, "
                "an announced Size1 is at most the true length, body < 2^31 bytes",
+               "never_wrong_body_block2_partial / at_most_once_block2_partial: every response carries the server's slice for its NUM/SZX with the "
+               "right More bit, in the block size the lg_crcv tracks, with the same Size2 (<= true length, or none) on every response; ETag and "
+               "Content-Format arbitrary; no Observe, Q-Block2, BERT; allocation and coap_send_internal never fail",
+               "client_block1_genuine_partial: no response asks for a larger block size than the lg_xmit uses; body < 2^32 bytes",
+               "release_exactly_once: every deletion site unlinks a list member before coap_block_delete_lg_xmit (checked by reading all 10 sites)",
                "compiled Lean definitions agree with the kernel's reading of them"]
 SPEC_DECISIONS = ["D15 coap_add_data_large_request/_response returning 0 (no room for even the smallest block within the maximum "
                   "message size, after the 43+8 bytes libcoap reserves for Echo and token) is an explicit failure, not a violation of "
